@@ -24,7 +24,10 @@ type c17Env struct {
 }
 
 // c17Setup builds a keeper over fresh stores with arbitrary (valid) parameters and an arbitrary consensus gas limit.
-func c17Setup() *c17Env {
+func c17Setup() *c17Env { return c17SetupWith(true) }
+
+// c17SetupWith(false) leaves the elasticity multiplier arbitrary: only what Params.Validate itself demands is assumed.
+func c17SetupWith(elasticityPositive bool) *c17Env {
 	env := zz.NewEnv([]string{"feemarket"}, []string{"transient_feemarket"})
 	k := Keeper{cdc: zz.Codec(), storeKey: env.Key("feemarket"), transientKey: env.Key("transient_feemarket"), ss: paramstypes.Subspace{}}
 	p := types.Params{
@@ -36,10 +39,14 @@ func c17Setup() *c17Env {
 		MinGasPrice:              zz.AnyDecRaw("minGasPrice", "0", "1000000000000000000000000000000000000000000000000000000000000"),
 		MinGasMultiplier:         sdkmath.LegacyNewDecWithPrec(5, 1),
 	}
-	// Params.Validate: denominator != 0. Elasticity 0 divides by zero in CalculateBaseFee and is not rejected by
-	// Validate (recorded as an observation in DESIGN.md); the property defines T = limit / elasticity, so elasticity >= 1.
+	// Params.Validate: denominator != 0, elasticity != 0 (the latter since fix 0ae6ec2, finding C17-F1; that every
+	// accepted parameter set admits the formula is VerifC17_ParamsAdmitFormula's subject).
 	zz.Assume(p.BaseFeeChangeDenominator >= 1)
-	zz.Assume(p.ElasticityMultiplier >= 1)
+	if elasticityPositive {
+		zz.Assume(p.ElasticityMultiplier >= 1)
+	} else {
+		zz.Assume(p.Validate() == nil) // the module's own validation, as run by MsgUpdateParams.ValidateBasic / genesis validation
+	}
 	if err := k.SetParams(env.Ctx, p); err != nil {
 		panic(err)
 	}
@@ -222,5 +229,22 @@ func VerifC17_EndBlock() {
 	want := sdkmath.MaxInt(limited, sdkmath.NewIntFromUint64(used))
 	zz.Assert(sdkmath.NewIntFromUint64(got).Equal(want), "stored gas figure = max(floor(gasWanted*minGasMultiplier), gasUsed)")
 	zz.Assert(got >= used, "declared-but-unpaid gas cannot push the figure below gas used")
+	zz.Reach("end")
+}
+
+
+// VerifC17_ParamsAdmitFormula: every parameter set that the module's own validation accepts (Params.Validate, which
+// SetParams / MsgUpdateParams / InitGenesis run) admits the formula: in an EIP-1559 block with a block gas limit of at
+// least 1 per unit of elasticity the base fee is computed, not a division by zero. (CalculateBaseFee runs in BeginBlock.)
+func VerifC17_ParamsAdmitFormula() {
+	e := c17SetupWith(false)
+	zz.Assume(!e.params.NoBaseFee)
+	zz.Assume(e.height > e.params.EnableHeight)
+	zz.Assume(e.limit.Cmp(new(big.Int).SetUint64(uint64(e.params.ElasticityMultiplier))) >= 0 && e.limit.Sign() > 0)
+	e.k.SetBlockGasWanted(e.ctx, zz.AnyUint64("gas"))
+	var got *big.Int
+	panicked := zz.Try(func() { got = e.k.CalculateBaseFee(e.ctx) })
+	zz.Assert(!panicked, "parameters accepted by Params.Validate never make the base fee computation panic")
+	zz.Assert(panicked || got != nil, "a base fee is computed when enabled")
 	zz.Reach("end")
 }
